@@ -8,7 +8,8 @@ def parseWatcher (j : Json) : Except String Watcher := do
   let id ← getNat j "id"
   return { id := id, params := ps, onlychanged := ← getBool j "onlychanged",
            queued := ← getBool j "queued", precedence := ← getInt j "precedence", body := ← getNat j "body",
-           cb := (getNat j "cb").toOption.getD id, what := (getNat j "what").toOption.getD 0 }
+           cb := (getNat j "cb").toOption.getD id, what := (getNat j "what").toOption.getD 0,
+           kw := (getBool j "kw").toOption.getD false }
 
 def parseKvs (j : Json) : Except String (List (Nat × Int)) := do
   (← j.getArr?).toList.mapM fun p => do
@@ -36,7 +37,7 @@ def jRes : Res → Json
   | .ok => "ok" | .raised .value => "ValueError" | .raised .boom => "Boom" | .raised .base => "BoomBase"
   | .raised .key => "KeyError" | .oof => "oof"
 def jType : EvType → Json
-  | .set => "set" | .changed => "changed" | .triggered => "triggered"
+  | .set => "set" | .changed => "changed" | .triggered => "triggered" | .kw => "kw"
 def jInts (l : List Int) : Json := Json.arr (l.map toJson).toArray
 def jNats (l : List Nat) : Json := Json.arr (l.map toJson).toArray
 
@@ -69,6 +70,7 @@ partial def parseItem (j : Json) : Except String Item := do
       let q ← e.getArr?
       let ty ← match ← q[3]!.getStr? with
         | "set" => pure EvType.set | "changed" => pure EvType.changed | "triggered" => pure EvType.triggered
+        | "kw" => pure EvType.kw
         | s => throw s!"type {s}"
       return ({ name := ← q[0]!.getNat?, old := ← q[1]!.getInt?, new := ← q[2]!.getInt?, type := ty,
                 what := (q[4]?.bind (fun x => x.getNat?.toOption)).getD 0 } : TEv)
